@@ -363,12 +363,66 @@ def run(chk, pid):
         chk.violation('%s: Ombott.__call__ disagrees with RadiRouter.resolve for %r %s: resolve=%s wsgi=%s'
                       % (pid, rl.l2s(b['path']), b['verb'], json.dumps(b['resolve'])[:200], json.dumps(b['wsgi'])[:200]),
                       {'e2e': True, 'path': b['path'], 'verb': b['verb'], 'clauses': ['EndToEnd']})
+    if pid == 'C01':
+        rule_syntax(chk, rng, thorough)
     chk.extra['assumptions'] = ['Python re is trusted; only the filter family {plain, int, float, re(to.), re([a-z]+), path} is modelled',
                                 'request paths are compared after strip("/") as resolve documents; rex selectors are out of scope',
                                 'prefix-wildcard removal is exercised only on prefixes without hooks beneath']
     chk.extra['rule'] = ('TLC state-cover + simulated edit histories replayed on the real router in random syntax flavours, and random '
                          'rule universes/histories; after every operation the projected tree/indexes and sampled probe answers are '
                          'recorded and judged by TLC against the rule-by-rule reference; distinct by operation sequence')
+
+
+def rule_syntax(chk, rng, thorough):
+    """C01 'in every rule syntax flavour': the rule parser is transcribed in specs/RuleParser.tla; TLC checks that every
+    flavour of every abstract rule parses back to it, the same texts and random rule strings go through the real
+    Route.parse_rule, and TLC judges the records."""
+    import itertools
+    from ombott.router.radirouter import Route
+    ws = core.tla_workspace()
+    r = core.run_tlc(ws, 'MC_RuleParser', 'MC_RuleParser.cfg', allow_violation=True)
+    chk.add_tlc(r, 'exhaustive MC_RuleParser (flavour equivalence)')
+    if not r.ok:
+        raise core.MachineryError('model-level RuleParser: %s' % r.violated)
+    r = core.run_tlc(ws, 'MC_RuleParserCover', 'MC_RuleParserCover.cfg', workers=1)
+    chk.add_tlc(r, 'flavour enumeration MC_RuleParserCover')
+    proj = rl.Proj()
+
+    def real(text):
+        try:
+            pat, params, filters, _po, _fo = Route.parse_rule('/' + text)
+            return {'ok': True, 'pat': rl.s2l(pat), 'names': [rl.s2l('' if p.startswith('anon-') else p) for p in params],
+                    'fkeys': [rl.s2l('' if f is None else proj.fkey(f)) for f in filters]}
+        except Exception as e:   # noqa
+            return {'ok': False, 'pat': [], 'names': [], 'fkeys': [], 'exc': type(e).__name__}
+    recs = []
+    for w in r.printed_json('W'):
+        t = real(rl.l2s(w['text']))
+        t.update(kind='rendered', text=w['text'], want={k: w['want'][k] for k in ('pat', 'names', 'fkeys')})
+        recs.append(t)
+        chk.count(1, ('syntax', tuple(w['text'])))
+    alpha = 'a/:<>{}.()int'
+    texts = [''.join(t) for n in range(0, 5 if thorough else 4) for t in itertools.product(alpha, repeat=n)]
+    for _ in range(6000 if thorough else 1500):
+        texts.append(''.join(rng.choice(alpha + 'refloatpath1_:<{') for _ in range(rng.randint(4, 14))))
+    for tx in texts:
+        if '[' in tx or '\\' in tx:
+            continue
+        t = real(tx)
+        t.update(kind='random', text=rl.s2l(tx), want={'pat': [], 'names': [], 'fkeys': []})
+        recs.append(t)
+        chk.count(1, ('syntax-random', tx))
+    missing, fails = core.validate_records(chk, 'RuleParserTrace', recs, 'rule syntax', strip=lambda t: {k: v for k, v in t.items() if k != 'exc'})
+    for i, cl in sorted(fails.items()):
+        t = recs[i]
+        chk.violation('C01: rule text %r does not parse to the rule it was written for: got %s, wanted %s'
+                      % ('/' + rl.l2s(t['text']), {k: t[k] for k in ('ok', 'pat', 'names', 'fkeys')}, t['want']),
+                      {'clauses': ['FlavourEquiv'], 'rule_text': '/' + rl.l2s(t['text'])})
+    drift = sorted(set(missing) - set(fails))
+    if drift:
+        t = recs[drift[0]]
+        chk.drift('rule syntax: %d rule strings parse differently from the RuleParser transcription (first: %r -> ok=%s %s)'
+                  % (len(drift), '/' + rl.l2s(t['text']), t['ok'], t.get('exc', '')))
 
 
 def replay(path, pid):
